@@ -76,7 +76,7 @@ func (c17) Generate(r *simkit.Rand, tier string) any {
 			var acts []C17Action
 			for j, na := 0, r.Range(0, 3); j < na; j++ {
 				a := C17Action{Member: r.Intn(c.Members), Reason: simkit.Pick(r, "normal", "shutdown", "error")}
-				a.Kind = simkit.Pick(r, "exit", "exit", "exit", "kill", "stop", "stopforce", "stoptimeout")
+				a.Kind = simkit.Pick(r, "exit", "exit", "exit", "kill", "stop", "stopforce", "stoptimeout", "busy")
 				if a.Kind == "exit" || a.Kind == "kill" {
 					// one termination cause per member and round, so that the cause of each member's exit is known
 					if used[a.Member] {
@@ -189,6 +189,12 @@ func (c17) Run(e *simkit.Env, cc any) {
 		h.Message = func(p *Probe, from gen.PID, m any) error {
 			if s, ok := m.(string); ok {
 				switch s {
+				case "busy":
+					// stays inside the handler for two simulated seconds: exit signals and Kill
+					// take effect only when it returns
+					e.Probe("member-busy")
+					e.Sleep(2 * time.Second)
+					return nil
 				case "normal":
 					return gen.TerminateReasonNormal
 				case "shutdown":
@@ -388,6 +394,13 @@ func (c17) Run(e *simkit.Env, cc any) {
 					inv := e.Step()
 					t0 := e.Now()
 					switch a.Kind {
+					case "busy":
+						for _, m := range mine {
+							if m.idx == a.Member {
+								n.Send(m.pid, "busy")
+							}
+						}
+						e.Logf("action busy member %d", a.Member)
 					case "exit", "kill":
 						var target *memberRec
 						for _, m := range mine {
@@ -423,7 +436,7 @@ func (c17) Run(e *simkit.Env, cc any) {
 						default:
 							err = n.ApplicationStopWithTimeout("main", time.Second)
 						}
-						if err == nil && a.Kind != "stopforce" {
+						if err == nil {
 							for _, m := range mine {
 								if _, perr := n.ProcessInfo(m.pid); perr == nil {
 									e.Fail("C17/stop-returned-early", "round %d: %s returned nil while member %d was still registered and running", ri, a.Kind, m.idx)
@@ -568,7 +581,7 @@ func (c17) Run(e *simkit.Env, cc any) {
 			}
 		}
 		for _, r := range rs {
-			if r.err == nil && r.kind != "stopforce" {
+			if r.err == nil {
 				for _, m := range rr {
 					if !m.terminated || m.termStep > r.ret {
 						// the member's Terminate callback runs right after it left the group; allow that tail
